@@ -10,6 +10,7 @@ rm -rf "$WT"; mkdir -p /tmp/val
 git -C /repo worktree prune
 git -C /repo worktree add -q --detach "$WT" HEAD || exit 2
 cd "$WT" || exit 2
+mkdir -p "$WT/_tmp"; export TMPDIR="$WT/_tmp"   # the suite writes fixed temp-file names: never share /tmp with another run
 R="$SD/validation.txt"; : > "$R"
 echo "repo HEAD $(git -C /repo log -1 --format=%h)  $(date -u +%FT%TZ)" >> "$R"
 if ! git apply "$SD/patch.diff" 2>>"$R"; then echo "RESULT: patch does not apply" | tee -a "$R"; cd /; git -C /repo worktree remove --force "$WT"; exit 1; fi
